@@ -158,6 +158,14 @@ func Rewrite(t *rapid.T, cfg Cfg) *ast.Node {
 		}
 	}
 	root := ast.Seq(piece(2))
+	if rapid.IntRange(0, 7).Draw(t, "rwleadcap") == 0 {
+		// a leading capture group whose content starts with an unbounded loop, referenced later: where
+		// the loop started decides what the reference must repeat, so start positions inside the
+		// run of loop characters are not interchangeable
+		g := ast.Group(ast.GNumbered, ast.Seq(s.rwLoop(t), s.rwStr(t, 0, 1)))
+		g.Num = 1
+		root = ast.Seq(g, s.rwStr(t, 0, 1), &ast.Node{K: ast.KBackref, Num: 1}, root)
+	}
 	if rapid.IntRange(0, 2).Draw(t, "rwtail") != 0 {
 		root.Kids = append(root.Kids, piece(1))
 	}
